@@ -176,6 +176,12 @@ pub fn check_case(ctx: &mut Ctx, c: &Case) {
         others.push(("u32", guard(|| { let v: Vec<u32> = vals.iter().map(|&x| x as u32).collect(); (WaveletMatrix::from(v.clone()), WMCore::from(v)) })));
     }
     others.push(("usize", guard(|| { let v: Vec<usize> = vals.iter().map(|&x| x as usize).collect(); (WaveletMatrix::from(v.clone()), WMCore::from(v)) })));
+    // The loaded copy (serialize; load) is one more route to the same matrix.
+    others.push(("u64, then serialize and load", guard(|| {
+        let w2: WaveletMatrix = from_bytes(&to_bytes(&wm)).expect("load refused the library's own serialization");
+        let c2: WMCore = from_bytes(&to_bytes(&core)).expect("load refused the library's own serialization");
+        (w2, c2)
+    })));
     // Same vector through another item type: same length, width, items and index answers. (The property
     // is about answers; identical representation across item types is not stated.)
     let _ = &bytes;
